@@ -13,7 +13,7 @@ import (
 )
 
 func init() {
-	register("C01", "Decides, for every CFG path of every driver's matcher that ends in a returned ProbeResponse (the decision table built by path enumeration over go/ssa with path-relative origins): the quoted destination (and port) was compared with the run's target (R01.1); the quoted INNER source was compared with the run's own source unless the relaxed switch is on (R01.2); a direct reply was compared on outer pair, ports, flags / echo id (R01.3); a sent-probe lookup keyed by the quoted identifier succeeded and the reported TTL comes from that lookup (R01.4); no packet-derived identifier is narrowed before its range check (R01.5); the SYN driver credits only the last stored probe and checks ack-1 when ACK is set (R01.6); every non-accept return yields a nil response (R01.7). These are necessary conditions of attribution soundness for all inbound packets at once; they do not decide that gopacket decodes bytes into those fields correctly, nor arrival-order effects. (R01.8) The SACK handshake matcher accepts a SYN-ACK only after comparing addresses, ports and the acknowledgement number with the run's own; (R01.9) entries of the sent-probe tables are created only in functions reached from SendProbe and from nowhere else (constructors may install an empty table), because the matchers read an entry as 'this probe was emitted'. Accept paths are the inlined return paths of ReceiveProbe (helpers of the driver's package opened whatever their signature; sent-probe lookups, decoders and looping helpers stay opaque); the sent-probe tables are identified by owner type and field, wherever they are kept. (R01.4c) A successful lookup means 'this probe was emitted': where the table's slots exist before their probes are sent (a map, a pre-sized slice) every success path of the lookup, or the matcher itself, tests that the slot read was filled.", runC01)
+	register("C01", "Decides, for every CFG path of every driver's matcher that ends in a returned ProbeResponse (the decision table built by path enumeration over go/ssa with path-relative origins): the quoted destination (and port) was compared with the run's target (R01.1); the quoted INNER source was compared with the run's own source unless the relaxed switch is on (R01.2); a direct reply was compared on outer pair, ports, flags / echo id (R01.3); a sent-probe lookup keyed by the quoted identifier succeeded and the reported TTL comes from that lookup (R01.4); no packet-derived identifier is narrowed before its range check (R01.5); the SYN driver credits only the last stored probe and checks ack-1 when ACK is set (R01.6); every non-accept return yields a nil response (R01.7). These are necessary conditions of attribution soundness for all inbound packets at once; they do not decide that gopacket decodes bytes into those fields correctly, nor arrival-order effects. (R01.8) The SACK handshake matcher accepts a SYN-ACK only after comparing addresses, ports and the acknowledgement number with the run's own; (R01.9) entries of the sent-probe tables are created only in functions reached from SendProbe and from nowhere else (constructors may install an empty table), because the matchers read an entry as 'this probe was emitted'. Accept paths are the inlined return paths of ReceiveProbe (helpers of the driver's package opened whatever their signature; sent-probe lookups, decoders and looping helpers stay opaque); the sent-probe tables are identified by owner type and field, wherever they are kept. (R01.4c) A successful lookup means 'this probe was emitted': where the table's slots exist before their probes are sent (a map, a pre-sized slice) every success path of the lookup, or the matcher itself, tests that the slot read was filled. (R01.10) The address pair the frame parser builds from an IPv6 header keeps IPv6 addresses (no Unmap), so a v4-mapped IPv6 packet never compares equal to an IPv4 flow; (R01.11) the per-probe identifier taken from a quoted header is that header's own Id / Length field or zero, never the size of what was quoted.", runC01)
 	darwinRules["C01"] = runC01
 }
 
